@@ -36,7 +36,7 @@ RULE = ("routes: one case = one committed log of 5-30 write requests of the C12 
         "bulk ranges around DeleteRangeThreshold; 30% with notifications disabled) applied live (compared with the model) and on three more real kv.DB instances: close/reopen at random points, "
         "StrictMem crash to the last flush + replay from the stored commit offset, real Snapshot() shipped with chunk size in {3,7,64,1000,4096,1 MiB} + replay; plus 4 sender and ~7 loader cases per log on generated "
         "directories (empty files, exact multiples, damaged streams) compared with Db/Snapshot.v. controllers: one case = one log fed to a real FollowerController (optionally restarted), to a fresh follower through "
-        "SendSnapshot + Replicate, to a follower that is then elected leader, and a request stream through a real LeaderController whose WAL is replayed on a fresh DB; distinct by generator sub-seed")
+        "SendSnapshot + Replicate, to a follower that is then elected leader, a request stream through a real LeaderController whose WAL is replayed on a fresh DB, and a replication-factor-2 leader whose follower acks are held by the harness while the callers of ~40% of the writes are cancelled between WAL sync and commit (leader DB vs its log replayed vs a real follower); distinct by generator sub-seed")
 LEGS = [
     {"name": "routes", "harness": "db", "model": "db", "args": ["-mode", "c06"], "n_quick": 120, "n_thorough": 6000,
      "corpus": "corpus/db06", "timeout": 900, "timeout_thorough": 3000},
